@@ -12,7 +12,12 @@ use crate::report::{hash_of, Reporter};
 use crate::world::{BankEv, BankKind, World};
 
 #[derive(Default)]
-pub struct C04 {}
+pub struct C04 {
+    /// the fee collector as the messages seen so far define it: the one at the start, replaced
+    /// only by an accepted UpdateConfig that names another (not read back from the configuration,
+    /// which a defect could have re-pointed silently)
+    model_fc: Option<String>,
+}
 
 type Leg = (String, String, String, String, u128); // kind, from, to, denom, amount
 
@@ -173,7 +178,19 @@ pub fn resolve_receiver(w: &World, receiver: &Option<String>, sender: &Addr) -> 
 
 impl Monitor for C04 {
     fn step(&mut self, w: &mut World, s: &Step, rep: &mut Reporter) {
+        if self.model_fc.is_none() {
+            self.model_fc = Some(s.pre.pm_fc.clone());
+        }
         self.judge(w, s, rep);
+        if let (Op::Pm { msg: pm::ExecuteMsg::UpdateConfig { fee_collector_addr: Some(a), .. }, .. }, true) = (s.op, s.out.is_ok()) {
+            self.model_fc = Some(a.clone());
+        }
+        if self.model_fc.as_deref() != Some(s.post.pm_fc.as_str()) {
+            rep.failed("fee_destination", None, format!("the pool manager's fee collector is now {} although no accepted message named it (expected {})", w.name_of(&s.post.pm_fc), w.name_of(self.model_fc.as_deref().unwrap_or(""))), witness(json!({"after": s.op.kind(), "configured": s.post.pm_fc, "expected": self.model_fc})));
+            self.model_fc = Some(s.post.pm_fc.clone());
+        } else if matches!(s.op, Op::Pm { msg: pm::ExecuteMsg::UpdateConfig { .. }, .. }) {
+            rep.held("fee_destination", hash_of(&(s.out.is_ok(), s.post.pm_fc == w.fc.as_str())), || json!({"after": "pm.update_config", "accepted": s.out.is_ok(), "fee_collector": w.name_of(&s.post.pm_fc)}));
+        }
         if s.idx % 120 == 77 {
             self.lp_pool_probe(w, s, rep);
         }
@@ -312,7 +329,7 @@ impl C04 {
                     expected.push(("burn".into(), w.pm.to_string(), String::new(), h.ask_denom.clone(), h.burn_fee));
                 }
                 if h.protocol_fee > 0 {
-                    expected.push(("send".into(), w.pm.to_string(), s.pre.pm_fc.clone(), h.ask_denom.clone(), h.protocol_fee));
+                    expected.push(("send".into(), w.pm.to_string(), self.model_fc.clone().unwrap_or_else(|| s.pre.pm_fc.clone()), h.ask_denom.clone(), h.protocol_fee));
                 }
             }
             pm::ExecuteMsg::ExecuteSwapOperations { receiver, operations, .. } => {
@@ -359,7 +376,7 @@ impl C04 {
                         expected.push(("burn".into(), w.pm.to_string(), String::new(), h.ask_denom.clone(), h.burn_fee));
                     }
                     if h.protocol_fee > 0 {
-                        expected.push(("send".into(), w.pm.to_string(), s.pre.pm_fc.clone(), h.ask_denom.clone(), h.protocol_fee));
+                        expected.push(("send".into(), w.pm.to_string(), self.model_fc.clone().unwrap_or_else(|| s.pre.pm_fc.clone()), h.ask_denom.clone(), h.protocol_fee));
                     }
                 }
             }
